@@ -315,6 +315,40 @@ def covered (tab : List Access) (f : Text × Text) : Bool :=
   (tab.any fun a => a.type == f.1 && a.field == f.2 && a.acc == .write && a.held == .w) &&
   (tab.any fun a => a.type == f.1 && a.field == f.2 && a.acc == .read && a.held != .none)
 
+/-! ### user callbacks and registry locks (`extract/lockset.go`, second pass) -/
+
+/-- One call through a function value (the user's handlers, list filters and callbacks are function values) inside a
+    function that takes a registry lock. `held`: how a guard mutex of a tracked type is POSSIBLY held at the call
+    (may-analysis: on some path; `defer …Unlock()` = to the end of the function); `sure = false`: the control flow of
+    the function was not understood (labels, goto). -/
+structure CbCall where
+  fn : Text
+  callee : Text
+  calleeType : Text
+  held : Held
+  sure : Bool
+  deriving Repr, DecidableEq
+
+/-- The callback runs with no registry lock held: it may itself register / unregister (a one-shot handler removing
+    itself, a handler registering a follow-up) without deadlocking on the non-reentrant RWMutex, and however long it
+    runs it blocks neither registration nor the dispatch of other entries. -/
+def cbOutsideLocks (c : CbCall) : Bool := c.sure && c.held == .none
+
+/-- The dispatch sites that must appear in the table: (function, type of the callee). -/
+def expectedCallbackSites : List (Text × Text) :=
+  [(t!"Server.handleServerNotification", t!"ServerNotificationHandler"),
+   (t!"SSEServer.handleNotification", t!"ServerNotificationHandler"),
+   (t!"stdioServerInternal.HandleNotification", t!"ServerNotificationHandler"),
+   (t!"toolManager.handleCallTool", t!"toolHandler"),
+   (t!"promptManager.handleGetPrompt", t!"promptHandler"),
+   (t!"resourceManager.handleReadResource", t!"resourcesHandler")]
+
+/-- The shape of seeded change C12-5 as the extractor reports it (a literal, not regenerated): `handleServerNotification`
+    with `RLock(); defer RUnlock()` and the handler called before the function returns. -/
+def c125Table : List CbCall :=
+  [⟨t!"Server.handleServerNotification", t!"handler", t!"ServerNotificationHandler", .r, true⟩,
+   ⟨t!"toolManager.handleCallTool", t!"registeredTool.Handler", t!"toolHandler", .none, true⟩]
+
 end Mcp.Registry
 
 /-! ## Part 2 — reader/writer-lock traces -/
